@@ -76,6 +76,24 @@ struct Run : ContBase {
 
     // ------------------------------------------------------------ list ops
     long gen_index() { long n = (long)m.size(); return s.chance(1, 5) ? s.range(-n - 2, n + 2) : s.range(-n - 1, n); }
+    bool burst_case = false;
+    // element counts in the hundreds and thousands (index walks from both ends, long flattenings), not only a few dozen
+    void l_burst() {
+        if (maxn > 0) { size_t old = qlist_setsize(l, 0); c.op("setsize(0)"); if (old != maxn) c.fail(FUNC, "list:setsize", "setsize returned previous maximum %zu, expected %zu", old, maxn); maxn = 0; }
+        size_t k = (size_t)s.range(50, 1500), n0 = m.size();
+        bool front = s.chance(1, 4);
+        c.op("burst: %zu x %s n=%zu", k, front ? "addfirst" : "addlast", n0);
+        for (size_t i = 0; i < k; i++) {
+            uint32_t h = (uint32_t)(n0 + i) * 2654435761u; size_t len = 1 + (h >> 5) % 12;
+            std::string e(len, '\0'); for (size_t j = 0; j < len; j++) e[j] = (char)(h >> (8 * (j & 3))) ^ (char)(j * 17);
+            Buf eb(e);
+            errno = poison;
+            bool ok = front ? qlist_addfirst(l, eb.p, eb.n) : qlist_addlast(l, eb.p, eb.n);
+            if (!ok) c.fail(FUNC, "list:add-result", "add number %zu of a burst returned false with %zu elements (errno=%d)", i + 1, m.size(), errno);
+            if (front) m.push_front(e); else m.push_back(e);
+        }
+        nt++;
+    }
     void l_add() {
         int api = (int)s.pick({2, 3, 4});
         long idx = api == 0 ? 0 : api == 1 ? -1 : gen_index();
@@ -246,11 +264,14 @@ struct Run : ContBase {
         if (!l && !q && !st && !g) c.fail(FUNC, "list:ctor", "constructor returned NULL");
         c.op("%s()", kind == 0 ? "qlist" : kind == 1 ? "qqueue" : kind == 2 ? "qstack" : "qgrow");
         int maxops = c.tier ? 2000 : 400, ops = 0;
+        burst_case = kind == 0 && s.chance(1, 15);
+        if (burst_case) { c.tag("case_with_burst_adds"); maxops = 100; }
         while (!s.exhausted() && ops++ < maxops) {
             const char *what = "op";
             if (kind == 0) {
-                int o = (int)s.pick({30, 12, 22, 3, 1, 2, 3, 3, 4, 1, 1});
+                int o = (int)s.pick({30, 12, 22, 3, 1, 2, 3, 3, 4, 1, 1, burst_case ? 2 : 0});
                 switch (o) {
+                    case 11: l_burst(); what = "burst"; break;
                     case 0: l_add(); what = "add"; break;
                     case 1: l_get(); what = "get"; break;
                     case 2: l_pop_remove(); what = "pop/remove"; break;
